@@ -471,7 +471,10 @@ def rule_S7(ctx):
             okb = not bk
         ctx.ob(rid, fn + "|buckets", okb, "buckets are forwarded exactly when given", site=b.raw["span"]["at"])
         rg = b.calls_to("prometheus::register")
-        ok = len(rg) == 1 and bool(vc_) and vc_[0].result_term() in list(subterms(rg[0].args[0])) and count_range(b, [rg[0].bb]) == (1, 1)
+        if not rg:
+            # the same registration spelled `default_registry().register(..)` (what prometheus::register itself does, C20.F3)
+            rg = [c_ for c_ in b.calls_to("Registry::register") if is_call(peel(c_.args[0], transparent=["Deref::deref"]), ["prometheus::default_registry", "registry::default_registry", "default_registry"])]
+        ok = len(rg) == 1 and bool(vc_) and vc_[0].result_term() in list(subterms(rg[0].args[-1])) and count_range(b, [rg[0].bb]) == (1, 1)
         ctx.ob(rid, fn + "|registers", ok, "the created vector (a clone of it) must be registered exactly once", site=b.raw["span"]["at"])
         # the Ok payload is S::from(&m) with m the registered vector: either registered.map(|m| S::from(&m)) or the same written out in the body
         okm = False
